@@ -183,7 +183,15 @@ class ExprGen:
             if r.random() < 0.5:
                 return {"Fn::Sub": self.sub_text()}
             names = r.sample(["V", "W", "A", "AWS::Region", "é中"], r.randint(0, 3))
-            return {"Fn::Sub": [self.sub_text(names), {n: self.s(d - 1) for n in names}]}
+            vmap = {}
+            for n in names:
+                if vmap and r.random() < 0.45:
+                    # a later variable whose value mentions a name an EARLIER sibling binds (the sibling must stay invisible here)
+                    prev = r.choice(list(vmap))
+                    vmap[n] = r.choice([{"Ref": prev}, {"Fn::Sub": "<${" + prev + "}>"}, {"Fn::Join": ["", [{"Ref": prev}, "!"]]}])
+                else:
+                    vmap[n] = self.s(d - 1)
+            return {"Fn::Sub": [self.sub_text(names), vmap]}
         if k < 0.48:
             return {"Fn::Join": [r.choice(["", "-", ",", "::", " "]) if r.random() < 0.85 else self.s(d - 1), self.l(d - 1)]}
         if k < 0.60:
